@@ -118,7 +118,28 @@ fn exec_quiet(pb: &ProgressBar, op: &BOp) {
     }
 }
 
+/// A real terminal (a pseudo-terminal) is drawn to in this process before any `Term` that is not one is
+/// looked at: whatever the crate finds out about a terminal belongs to that `Term` alone.
+fn tty_first() {
+    static ONCE: std::sync::Once = std::sync::Once::new();
+    ONCE.call_once(|| {
+        if let Ok(pty) = c01::open_pty(24, 80) {
+            if let (Ok(r), Ok(w)) = (pty.slave.try_clone(), pty.slave.try_clone()) {
+                let term = console::Term::read_write_pair(r, w);
+                if term.is_term() {
+                    let pb = ProgressBar::with_draw_target(Some(3), ProgressDrawTarget::term(term, 20));
+                    pb.tick();
+                    let _ = pb.is_hidden();
+                    pb.finish_and_clear();
+                }
+            }
+            drop(pty.master);
+        }
+    });
+}
+
 fn run_hidden(c: &HiddenCase) -> CaseResult {
+    tty_first();
     let _clk = clock::Armed::new();
     // visible twin
     let vis_vt = VTerm::raw(200, 100);
@@ -429,6 +450,97 @@ fn run_ticker_remove(c: &TickerRemoveCase) -> CaseResult {
 }
 
 // ------------------------------------------------------------------------------------------
+// steady tick switched on and off on a bar that is hidden (real threads)
+
+#[derive(Debug, Clone, Serialize, Deserialize)]
+pub struct HiddenTickerCase {
+    /// 0 hidden target, 1 Term that is not a tty, 2 member of a hidden MultiProgress, 3 removed from a visible one
+    way: u8,
+    tick_ms: u8,
+    incs: u8,
+    /// enable_steady_tick a second time (replacing the ticker) before it is disabled
+    replace: bool,
+    /// milliseconds between enabling and the next call (0 = at once)
+    pause_ms: u8,
+}
+
+fn run_hidden_ticker(c: &HiddenTickerCase) -> CaseResult {
+    let (tx, rx) = std::sync::mpsc::channel();
+    let c2 = c.clone();
+    std::thread::spawn(move || {
+        let r = catch(|| hidden_ticker_scenario(&c2));
+        let _ = tx.send(r);
+    });
+    match rx.recv_timeout(Duration::from_secs(20)) {
+        Ok(Ok(r)) => r,
+        Ok(Err(p)) => Err(Fail::new("panic", format!("{c:?} panicked: {p}"))),
+        Err(_) => Err(Fail::new(
+            "hidden_bar_hangs",
+            format!("{c:?}: enable_steady_tick / inc / disable_steady_tick on a hidden bar did not return within 20 s (the visible twin is not involved)"),
+        )),
+    }
+}
+
+fn hidden_ticker_scenario(c: &HiddenTickerCase) -> CaseResult {
+    tty_first();
+    let spy = VTerm::raw(50, 80);
+    let file = memfd();
+    let probe = file.try_clone().map_err(|e| Fail::new("harness", e.to_string()))?;
+    let mut keep = None;
+    let way = c.way % 4;
+    let hid = match way {
+        0 => ProgressBar::with_draw_target(Some(50), ProgressDrawTarget::hidden()),
+        1 => ProgressBar::with_draw_target(Some(50), ProgressDrawTarget::term(console::Term::read_write_pair(file.try_clone().unwrap(), file), 20)),
+        2 => {
+            let mp = MultiProgress::with_draw_target(ProgressDrawTarget::hidden());
+            let pb = mp.add(ProgressBar::new(50));
+            keep = Some(mp);
+            pb
+        }
+        _ => {
+            let mp = MultiProgress::with_draw_target(ProgressDrawTarget::term_like(spy.boxed()));
+            let pb = mp.add(ProgressBar::new(50));
+            mp.remove(&pb);
+            keep = Some(mp);
+            pb
+        }
+    };
+    let vis = ProgressBar::with_draw_target(Some(50), ProgressDrawTarget::term_like(VTerm::raw(50, 80).boxed()));
+    let calls0 = spy.ncalls();
+    let d = Duration::from_millis(1 + c.tick_ms as u64 % 50);
+    let pause = Duration::from_millis(c.pause_ms as u64 % 4);
+    for round in 0..4u64 {
+        for pb in [&vis, &hid] {
+            pb.enable_steady_tick(d);
+            if !pause.is_zero() {
+                std::thread::sleep(pause);
+            }
+            if c.replace {
+                pb.enable_steady_tick(d * 2);
+            }
+            for _ in 0..c.incs % 4 {
+                pb.inc(1);
+            }
+            pb.set_message(format!("round {round}"));
+            pb.disable_steady_tick();
+        }
+        let get = |pb: &ProgressBar| (pb.position(), pb.length(), pb.message(), pb.prefix(), pb.is_finished());
+        let (a, b) = (get(&vis), get(&hid));
+        ensure!(a == b, "state_diverged", "hidden way {way}, round {round}: (position, length, message, prefix, finished) = {b:?}, the visible twin has {a:?} ({c:?})");
+    }
+    ensure!(spy.ncalls() == calls0, "not_silent", "hidden way {way}: the hidden bar with a steady ticker made {} terminal call(s)", spy.ncalls() - calls0);
+    drop(hid);
+    drop(keep);
+    let written = probe.metadata().map(|m| m.len()).unwrap_or(0);
+    ensure!(written == 0, "not_silent", "hidden way {way}: {written} bytes were written to the Term that is not a tty");
+    let mut v = Verdict::default();
+    v.nontrivial = true;
+    v.label(["ticker_on_hidden_target", "ticker_on_not_a_tty", "ticker_in_hidden_multi", "ticker_on_removed_member"][way as usize]);
+    v.label_if(c.pause_ms % 4 == 0, "disabled_right_after_enabling");
+    Ok(v)
+}
+
+// ------------------------------------------------------------------------------------------
 // the process's own stdout / stderr, redirected to something that is not a terminal
 
 #[derive(Debug, Clone, Serialize, Deserialize)]
@@ -572,6 +684,7 @@ pub fn property() -> Property {
         level: "exploration",
         assumptions: &[
             "'terminal operation' = a fallible TermLike call (moves, writes, clear, flush) resp. any byte written to the non-tty Term; size queries are not counted",
+            "before the first case a bar is drawn to a pseudo-terminal once, so that a real terminal has been seen in the process before any Term that is not one",
             "Term that is not a tty = console::Term::read_write_pair over a memfd; in part std_streams the process's own stdout and stderr, pointed at a memfd for the duration of a case",
             "state equivalence is checked against a visible twin driven by the same calls under the same virtual clock (elapsed, eta and per_sec bit-equal as well)",
         ],
@@ -594,6 +707,17 @@ pub fn property() -> Property {
             run: run_ticker_remove,
             signature: no_signature,
             essential: &["removed_while_ticker_runs_and_multi_progress_is_busy"],
+            workers: 4,
+            decode: None,
+        }),
+        Box::new(Gen::<HiddenTickerCase> {
+            name: "hidden_ticker",
+            rule: "real threads: on a bar hidden in one of four ways and on a visible twin, four rounds of enable_steady_tick(1-50 ms) [pause 0-3 ms] [enable again] inc x 0-3, set_message, disable_steady_tick; every call returns (20 s watchdog), the five getters agree after every round, the hidden bar makes no terminal call and writes no byte",
+            strategy: |_| (0u8..4, any::<u8>(), 0u8..4, any::<bool>(), 0u8..4).prop_map(|(way, tick_ms, incs, replace, pause_ms)| HiddenTickerCase { way, tick_ms, incs, replace, pause_ms }).boxed(),
+            cases: |t| t.pick(8, 400),
+            run: run_hidden_ticker,
+            signature: no_signature,
+            essential: &["ticker_on_hidden_target", "ticker_on_not_a_tty", "ticker_in_hidden_multi", "ticker_on_removed_member", "disabled_right_after_enabling"],
             workers: 4,
             decode: None,
         }),
